@@ -80,7 +80,17 @@ theorem ginv_step {cfg : Cfg} {s s' : State} (a : Action) (hI : GInv cfg s)
     split at h
     · exact ginv_updConn (good_cStartP i) (Or.inl (stay_cStartP i)) hI h
     · exact ginv_updConn (good_cStart i) (Or.inl (stay_cStart i)) hI h
-  | fin c i => exact ginv_updConn (good_cFin i) (Or.inl (stay_cFin i)) hI h
+  | fin c i =>
+    simp only [step] at h
+    split at h
+    · contradiction
+    · exact ginv_updConn (good_cFin i) (Or.inl (stay_cFin i)) hI h
+  | finEarly c i =>
+    simp only [step] at h
+    split at h
+    · exact ginv_updConn (good_cFinEarly i) (Or.inl (stay_cFinEarly i)) hI h
+    · contradiction
+  | lateWrite c i => exact ginv_updConn (good_cLateWrite i) (Or.inl (stay_cLateWrite i)) hI h
   | write c i => exact ginv_updConn (good_cWrite i) (Or.inl (stay_cWrite i)) hI h
   | skip c i => exact ginv_updConn (good_cSkip _ i) (Or.inl (stay_cSkip _ i)) hI h
   | dec c i => exact ginv_updConn (good_cDec i) (Or.inl (stay_cDec i)) hI h
